@@ -37,6 +37,12 @@ CONFUSABLE_ENTRIES = [
 ]
 
 
+# how the top of a project is marked (config_utils.find_project_root_and_config): a pyproject.toml with / without the pytask
+# section, a `.git` directory, a `.git` FILE (linked work tree, submodule), nothing at all
+LAYOUTS = ["gitfile", "section", "gitdir", "nosection", "nothing"]
+MARKED = {"gitfile", "section", "gitdir"}     # layouts in which the top is a stop for the root search
+
+
 def doc_ok(name: str) -> bool:
     return DOC.fullmatch(name) is not None
 
@@ -647,21 +653,33 @@ def produce_many():
 
 # a catalog whose entries live in memory (default_node=PythonNode): values travel within ONE build; dependents take several
 # entries inside ONE container argument (dict / list / tuple / nested), also mixed with plain values
-MEMORY = '''\
-from pytask import PythonNode
-_MEMNAME = @@NAME@@
-MEM = DataCatalog(name=_s(_MEMNAME), default_node=PythonNode)
+MEMCAT = '''\
+from pytask import DataCatalog, PythonNode
+NAME = @@NAME@@
+MEM = DataCatalog(name="".join(chr(c) for c in NAME), default_node=PythonNode)
+'''
 
+MEM_IMPORT = '''\
+import sys
+sys.path.insert(0, str(Path(__file__).parent))
+from memcat import MEM, NAME as _MEMNAME      # ONE catalog object shared by all task modules (its entries live in memory)
+'''
+
+MEMPROD = MEM_IMPORT + '''\
 for _tag, _entry, _b64 in @@PRODS@@:
     def _make(tag=_tag, entry=_entry, b=_b64):
         @task(id=tag, produces=MEM[_s(entry)])
         def produce_mem():
-            v = pickle.loads(base64.b64decode(b))
+            # the producer's source never changes; what it returns depends on the build (a counter file that is not a declared input)
+            v = (int((Path(__file__).parent / "build_no.txt").read_text()), pickle.loads(base64.b64decode(b)))
             _log({"k": "prod", "tag": tag, "cat": _MEMNAME, "entry": entry, "canon": canon(v)})
             return v
     _make()
 
 
+'''
+
+MEMCONS = MEM_IMPORT + '''\
 def _build(shape, slots):
     items = [MEM[_s(x)] if k == "e" else pickle.loads(base64.b64decode(x)) for k, x in slots]
     if shape == "list":
@@ -702,8 +720,16 @@ for _tag, _shape, _slots in @@CONS@@:
     _make()
 '''
 
+# where a module's catalogs store their files (logged when the module is imported)
+LOC = '''\
+import os
+for _c, _o in CATS.items():
+    _log({"k": "loc", "cat": list(_c), "path": os.path.normpath(os.fspath(_o.path)), "dir": os.path.dirname(os.path.abspath(__file__))})
+'''
 
-def write_module(path: Path, log: Path, cats, producers=None, consumers=None, multi=None, memory=None):
+
+def write_module(path: Path, log: Path, cats, producers=None, consumers=None, multi=None, memprod=None, memcons=None, loc=False,
+                 comment: str = ""):
     src = MODULE_HEAD.format(canon_src=CANON_SRC, log=str(log), cats=cats)
     if producers:
         src += PRODUCERS.format(specs=producers)
@@ -711,8 +737,13 @@ def write_module(path: Path, log: Path, cats, producers=None, consumers=None, mu
         src += CONSUMERS.format(specs=consumers)
     if multi:
         src += MULTI.replace("@@SPEC@@", repr(multi))
-    if memory:
-        src += MEMORY.replace("@@NAME@@", repr(memory["name"])).replace("@@PRODS@@", repr(memory["prods"])).replace("@@CONS@@", repr(memory["cons"]))
+    if memprod:
+        src += MEMPROD.replace("@@PRODS@@", repr(memprod))
+    if memcons:
+        src += MEMCONS.replace("@@CONS@@", repr(memcons))
+    if loc:
+        src += LOC
+    src = comment + src
     path.parent.mkdir(parents=True, exist_ok=True)
     path.write_text(src)
 
@@ -758,18 +789,32 @@ def random_e2e(rng, pid: int, f5: bool):
     cons.append(["cm_single", "list", [["e", cps(mem_entries[0])]]])
     memory = {"name": cps("mem-" + base), "prods": [[f"pmem{j}", cps(e), b64(random_value(rng))] for j, e in enumerate(mem_entries)],
               "cons": cons, "hashseed": rng.randrange(1, 1 << 16)}
+    memory["redo"] = sorted(rng.sample(range(len(cons)), rng.randint(1, len(cons) - 1)))   # dependents whose product is deleted before build 2
+    memory["late"] = ["cm_late", rng.choice(["list", "dict"]), [["e", cps(e)] for e in rng.sample(mem_entries, 2)]]
+    memory["hashseeds"] = [rng.randrange(1, 1 << 16) for _ in range(3)]
+    # the same catalog name constructed in modules of DIFFERENT directories, under different ways of marking the project's top
+    lay_entries = rng.sample(["x", "y z", "é", "", "k.pkl"], 2)
+    layout = {"kind": LAYOUTS[pid % len(LAYOUTS)], "cat": cps("shared-" + base), "entries": [cps(e) for e in lay_entries],
+              "values": [b64(random_value(rng)) for _ in lay_entries], "hashseeds": [rng.randrange(1, 1 << 16) for _ in range(2)]}
     return {"id": f"e{pid}", "cats": [cps(c) for c in cats], "pairs": [[cps(c), cps(e)] for c, e in pairs],
-            "v1": v1, "v2": v2, "multi": None if f5 else multi, "memory": None if f5 else memory,
+            "v1": v1, "v2": v2, "multi": None if f5 else multi,
+            # budget: of every 8 cases 6 carry the in-memory history and 5 the layout history (one per way of marking the top)
+            "memory": None if f5 or pid % 8 >= 6 else memory, "layout": None if f5 or pid % 8 >= 5 else layout,
             "hashseeds": [rng.randrange(1, 1 << 16) for _ in range(3)], "f5": f5, "split": rng.randint(1, max(1, len(pairs) - 1))}
 
 
-def run_e2e(ctx, base: Path, case: dict):
-    """3 builds in fresh processes: (1) producers A,B + consumers; (2) + late consumers in a sub-directory module;
-    (3) module B re-written with new values + more consumers. Returns (logs per build, build results)."""
+def _read_log(log: Path, done: int) -> list[dict]:
+    lines = [json.loads(l) for l in log.read_text().splitlines()] if log.exists() else []
+    return lines[done:]
+
+
+def run_main_history(base: Path, case: dict):
+    """3 builds in fresh processes: (1) producers A,B (+ one multi-leaf producer) + consumers; (2) + late consumers in a
+    sub-directory module; (3) module B re-written with new values + more consumers."""
     proj = new_project(base, "e2e_" + case["id"])
     log = proj / "log.jsonl"
     cats, k = case["cats"], case["split"]
-    multi, memory = case.get("multi"), case.get("memory")
+    multi = case.get("multi")
     pairs = case["pairs"]
     allpairs = pairs + ([[multi["cat"], e] for e in multi["entries"]] if multi else [])    # every ordinary entry gets dependents
     specA = [[f"pa{i}", c, e, case["v1"][i]] for i, (c, e) in enumerate(pairs[:k])]
@@ -783,10 +828,9 @@ def run_e2e(ctx, base: Path, case: dict):
 
     def build(i):
         r = run_build([str(proj)], case["hashseeds"][i], proj / f"res{i}.json")
+        r["label"] = f"main{i}"
         builds.append(r)
-        lines = [json.loads(l) for l in log.read_text().splitlines()] if log.exists() else []
-        done = sum(len(x) for x in logs)
-        logs.append(lines[done:])
+        logs.append(_read_log(log, sum(len(x) for x in logs)))
 
     build(0)
     write_module(proj / "sub" / "task_late.py", log, cats, consumers=[[f"c2_{i}", c, e] for i, (c, e) in enumerate(allpairs)])
@@ -795,13 +839,86 @@ def run_e2e(ctx, base: Path, case: dict):
     write_module(proj / "task_b.py", log, cats, producers=specB2, consumers=cons1[::2])
     write_module(proj / "task_z.py", log, cats, consumers=[[f"c3_{i}", c, e] for i, (c, e) in enumerate(allpairs)])
     build(2)
-    if memory:      # "build 3": a separate project with the in-memory catalog, one build
-        mproj = new_project(base, "e2e_mem_" + case["id"])
-        mlog = mproj / "log.jsonl"
-        write_module(mproj / "task_mem.py", mlog, [], memory=memory)
-        builds.append(run_build([str(mproj)], memory["hashseed"], mproj / "res.json"))
-        logs.append([json.loads(l) for l in mlog.read_text().splitlines()] if mlog.exists() else [])
-    return proj, builds, logs
+    return builds, logs
+
+
+def run_memory_history(base: Path, case: dict):
+    """The in-memory catalog over 3 builds (fresh interpreters). The producers' module is never touched; before build 2 the
+    products of some dependents are deleted, before build 3 the dependents' module is edited and gets one more dependent."""
+    memory = case["memory"]
+    proj = new_project(base, "e2e_mem_" + case["id"])
+    log = proj / "log.jsonl"
+    (proj / "memcat.py").write_text(MEMCAT.replace("@@NAME@@", repr(memory["name"])))
+    write_module(proj / "task_memprod.py", log, [], memprod=memory["prods"])
+    write_module(proj / "task_memcons.py", log, [], memcons=memory["cons"])
+    builds, logs = [], []
+
+    def build(i):
+        (proj / "build_no.txt").write_text(str(i))
+        r = run_build([str(proj)], memory["hashseeds"][i], proj / f"res{i}.json")
+        r["label"] = f"mem{i}"
+        builds.append(r)
+        logs.append(_read_log(log, sum(len(x) for x in logs)))
+
+    build(0)
+    for j in memory["redo"]:
+        (proj / f"out_{memory['cons'][j][0]}.txt").unlink(missing_ok=True)
+    build(1)
+    write_module(proj / "task_memcons.py", log, [], memcons=memory["cons"] + [memory["late"]], comment="# edited before the third build\n")
+    build(2)
+    return builds, logs
+
+
+def run_layout_history(base: Path, case: dict):
+    """One catalog name constructed in modules of different directories; 2 builds (the second adds a dependent elsewhere)."""
+    lay = case["layout"]
+    top = (base / ("e2e_lay_" + case["id"])).resolve()
+    top.mkdir(parents=True)
+    kind = lay["kind"]
+    if kind == "section":
+        (top / "pyproject.toml").write_text(PYPROJECT)
+    elif kind == "nosection":
+        (top / "pyproject.toml").write_text("[tool.other]\nx = 1\n")
+    elif kind == "gitdir":
+        (top / ".git").mkdir()
+    elif kind == "gitfile":
+        (top / ".git").write_text("gitdir: /nonexistent/repo/.git/worktrees/wt\n")
+    # without a marker a catalog is rooted at the directory of the module that constructs it: all its users share one directory
+    dirs = ["pkg_a", "pkg_b/deep", ".", "pkg_c"] if kind in MARKED else ["pkg_a"] * 4
+    log = top / "log.jsonl"
+    cat = lay["cat"]
+    prods = [[f"lp{i}", cat, e, v] for i, (e, v) in enumerate(zip(lay["entries"], lay["values"]))]
+    cons = lambda t: [[f"{t}{i}", cat, e] for i, e in enumerate(lay["entries"])]   # noqa: E731
+    write_module(top / dirs[0] / "task_prod.py", log, [cat], producers=prods, loc=True)
+    write_module(top / dirs[1] / "task_cons.py", log, [cat], consumers=cons("lc"), loc=True)
+    write_module(top / dirs[2] / "task_top.py", log, [cat], consumers=cons("lt"), loc=True)
+    builds, logs = [], []
+
+    def build(i):
+        r = run_build([str(top)], lay["hashseeds"][i], top / f"res{i}.json")
+        r["label"] = f"lay{i}"
+        builds.append(r)
+        logs.append(_read_log(log, sum(len(x) for x in logs)))
+
+    build(0)
+    write_module(top / dirs[3] / "task_late.py", log, [cat], consumers=cons("ll"), loc=True)
+    build(1)
+    return builds, logs
+
+
+def run_e2e(ctx, base: Path, case: dict):
+    """The histories of one case (main: 3 builds, in-memory catalog: 3 builds, root layout: 2 builds) run side by side; every
+    build is a fresh interpreter. Returns (None, builds, logs) with builds[i]["label"] naming history and build number."""
+    jobs = [run_main_history]
+    if case.get("memory"):
+        jobs.append(run_memory_history)
+    if case.get("layout"):
+        jobs.append(run_layout_history)
+    with ThreadPoolExecutor(max_workers=len(jobs)) as ex:
+        outs = list(ex.map(lambda f: f(base, case), jobs))
+    builds = [b for bs, _ in outs for b in bs]
+    logs = [l for _, ls in outs for l in ls]
+    return None, builds, logs
 
 
 def check_e2e(ctx, case: dict, builds, logs):
@@ -822,15 +939,31 @@ def check_e2e(ctx, case: dict, builds, logs):
         if rejected:
             ctx.dist["e2e:undocumented_name_rejected"] += 1
             return
-    for i, b in enumerate(builds):
+    labels = [b.get("label", f"main{i}") for i, b in enumerate(builds)]
+    for i, lines in zip(labels, logs):      # where the catalogs store their files (known even if the build then fails)
+        locs: dict[tuple, set] = {}
+        for rec in lines:
+            if rec["k"] == "loc":
+                locs.setdefault(tuple(rec["cat"]), set()).add(rec["path"])
+        for c, ps in locs.items():
+            if len(ps) > 1:
+                ctx.violation(f"root-split: catalog {s_of(c)[:30]!r} constructed in modules of one project (top marked by: "
+                              f"{case['layout']['kind']}) resolves to {len(ps)} different storage directories in build {i}: "
+                              f"{sorted(os.path.relpath(p, os.path.commonpath(sorted(ps))) for p in ps)[:3]}", rep, finding=fid)
+                return
+    for i, b in zip(labels, builds):
         if b["crash"] or b["exit_code"] != 0:
             ctx.violation(f"e2e-exit: build {i} of a project whose tasks only pass values through catalog entries ended with "
                           f"exit code {b['exit_code']} / {b['crash']}", rep, finding=fid)
             return
     last: dict[tuple, str] = {}
     ncons = [0] * len(logs)
-    for i, lines in enumerate(logs):
+    for bi, (i, lines) in enumerate(zip(labels, logs)):
+        if i.startswith("mem"):
+            last = {k: v for k, v in last.items() if k[0] != tuple(memory["name"])}    # in-memory entries are empty in a new session
         for rec in lines:
+            if rec["k"] == "loc":
+                continue
             if rec["k"] == "shape":
                 if rec["n"] != rec["want"]:
                     ctx.violation(f"e2e-value: dependent {rec['tag']} (build {i}) received a container argument with {rec['n']} leaves, "
@@ -847,15 +980,22 @@ def check_e2e(ctx, case: dict, builds, logs):
             if rec["k"] == "prod":
                 last[key] = rec["canon"]
             else:
-                ncons[i] += 1
+                ncons[bi] += 1
                 if last.get(key) != rec["canon"]:
                     ctx.violation(
                         f"e2e-value: consumer {rec['tag']} of ({s_of(rec['cat'])[:20]!r}, {s_of(rec['entry'])[:20]!r}) in build {i} received "
                         f"{rec['canon'][:60]!r}; the value last returned into that entry was {str(last.get(key))[:60]!r}", rep, finding=fid)
                     return
     ctx.dist[f"e2e:consumers_run={ncons}"] += 1
+    if case.get("layout"):
+        ctx.dist[f"e2e:layout={case['layout']['kind']}"] += 1
     # non-vacuity of the observation: new consumers of builds 1 and 2 must have run
-    want = [n, n, n] + ([sum(1 for _, _, sl in memory["cons"] for k, _ in sl if k == "e")] if memory else [])
+    want = [n, n, n]
+    if memory:
+        ne = lambda cs: sum(1 for _, _, sl in cs for k, _ in sl if k == "e")   # noqa: E731
+        want += [ne(memory["cons"]), ne([memory["cons"][j] for j in memory["redo"]]), ne(memory["cons"] + [memory["late"]])]
+    if case.get("layout"):
+        want += [2 * len(case["layout"]["entries"]), len(case["layout"]["entries"])]
     if any(got < w for got, w in zip(ncons, want)):
         ctx.violation(f"e2e-missing: consumers that had never run did not run (per build: {ncons}, expected ≥ {want})", rep, finding=fid)
 
